@@ -13,6 +13,8 @@ from hypothesis import strategies as st
 from vf.api import Kind, b2s, check, ok, rejected, s2b, trivial, violation
 from vf.lib import c29_wire as W
 
+W.HUGE_BODIES = True     # bodies around the encoder's 1 MiB write buffer
+
 PROPERTY = "C29"
 LEVEL = "exploration"
 TECHNIQUE = ("round trip real encoder -> real decoder over generated "
